@@ -340,6 +340,9 @@ func AsObjects(m map[string]any) (map[string]Object, error) {
 	result := make(map[string]Object, len(m))
 	for k, v := range m {
 		switch v := v.(type) {
+		case nil:
+			// an untyped nil has no Go type to look a converter up for
+			result[k] = Nil
 		case Object:
 			result[k] = v
 		default:
